@@ -368,9 +368,14 @@ fn framing_case(u: &mut Choices, sz: Size) -> CaseResult {
         evals += 1;
         let p = parses(&text);
         if p != base {
+            // a text whose last token is a keyword that is also a legal name (`let v = some`): the
+            // parser reads it as a name at the very end of the input and as the keyword when
+            // anything follows (recorded finding F56); every other case keeps the plain signature
+            let last = rules.trim_end().rsplit(|c: char| c.is_whitespace() || c == '.' || c == '[').next().unwrap_or("").to_lowercase();
+            let kw = ["some", "this", "keys", "not", "when", "or", "in", "exists", "empty", "let", "rule"].contains(&last.as_str());
             return CaseResult::Fail(Failure {
                 msg: format!("the rules text is {} by the parser, but with {} ({} lines) it is {}", if base { "accepted" } else { "rejected" }, what, n, if p { "accepted" } else { "rejected" }),
-                sig: "c08:comment-framing-changes-acceptance".into(),
+                sig: if kw { "c08:comment-framing-changes-acceptance:text-ends-in-keyword".into() } else { "c08:comment-framing-changes-acceptance".into() },
                 case: json!({"kind": "framing", "rules": rules, "framed": text}),
             });
         }
